@@ -132,7 +132,7 @@ var naParamMenu = []naParam{{"tag", "T", true}, {"TAG", "T2", true}, {"expires",
 var naLWS = []string{" ", "\r\n ", "\t"}
 
 // further LWS forms used by the thorough tier (lone-LF / lone-CR folds, CRLF HT)
-var naLWSMore = []string{"\n ", "\r\t", "\r\n\t", "  "}
+var naLWSMore = []string{"\n ", "\r\n\t"}
 
 func naParamLists(maxn int) [][]naParam {
 	var out [][]naParam
@@ -205,7 +205,11 @@ func gapAssignments(v *naVal, maxNonEmpty int, fn func(g []string)) {
 			if !valid(i) {
 				continue
 			}
-			for _, w := range naLWS {
+			kinds := naLWS
+			if len(v.Params) >= 3 && len(kinds) > 3 {
+				kinds = kinds[:3] // 3-parameter values: the three basic LWS forms only (budget)
+			}
+			for _, w := range kinds {
 				g[i] = w
 				rec(i+1, left-1)
 			}
@@ -526,7 +530,7 @@ func checkC09(r *Run) {
 	plists := naParamLists(r.pick(2, 3))
 	maxGaps := r.pick(2, 2)
 	kinds := []sipsp.HdrT{sipsp.HdrFrom, sipsp.HdrTo, sipsp.HdrContact, sipsp.HdrPAI, sipsp.HdrRoute, sipsp.HdrRecordRoute}
-	cutEvery := r.pick(5, 1)
+	cutEvery := r.pick(5, 3)
 	run := func(c *enumCtx, cs *c09Case) {
 		vs := evalC09(cs)
 		c.st.Evals++
